@@ -187,7 +187,9 @@ namespace detail
 		GLM_FUNC_QUALIFIER static vec<L, T, Q> call(vec<L, T, Q> const& x)
 		{
 			T const Shift(static_cast<T>(sizeof(T) * 8 - 1));
-			vec<L, T, Q> const y(vec<L, typename detail::make_unsigned<T>::type, Q>(-x) >> typename detail::make_unsigned<T>::type(Shift));
+			// Negate on the unsigned type: -x overflows for the most negative value
+			typedef typename detail::make_unsigned<T>::type UT;
+			vec<L, T, Q> const y((vec<L, UT, Q>(0) - vec<L, UT, Q>(x)) >> UT(Shift));
 
 			return (x >> Shift) | y;
 		}
